@@ -844,6 +844,39 @@ Proof.
   - intros _ _. eexists. split; [exact RD|]. cbn [set_value]. rewrite gtype_eqb_refl. reflexivity.
 Qed.
 
+(* ---- C03: the same list in the variable-length typed form  x55 type value* 'Z'  (which the
+        encoder never writes) ---- *)
+Lemma rz_S f e dst bs : R_rz (readers_at te tm (S f)) e dst bs = rz_step te (readers_at te tm f) e dst bs.
+Proof. reflexivity. Qed.
+Lemma elems_rz e : e <> TIface -> forall l, Forall rt_ok l -> Forall (sgv e) l -> Forall elem_pos_ok l ->
+  forall st st', enm st = nm -> cls_ok F (ecls st) -> write_items l st = Ok st' ->
+  cls_ok F (ecls st') /\ enm st' = enm st /\ grows st st' /\
+  exists bs ds cells, ebytes st' = ebytes st ++ bs /\ dgs (erefs st) l ds cells (erefs st') /\
+    (small st' -> forall dst rest, Inv st dst ->
+       exists dst', Inv st' dst' /\ dheap dst' = dheap dst ++ cells /\
+       forall f, (S (need_ditems l) <= f)%nat -> R_rz (readers_at te tm f) e dst (bs ++ 90 :: rest) = Ok (ds, rest, dst')).
+Proof.
+  intros NI. induction l as [|x r IH]; intros HF HS HP st st' En C W.
+  - cbn in W. inversion W; subst st'. split; [exact C|]. split; [reflexivity|]. split; [apply grows_refl|].
+    exists [], [], []. split; [rewrite app_nil_r; reflexivity|]. split; [constructor|].
+    intros _ dst rest I. exists dst. split; [exact I|]. split; [rewrite app_nil_r; reflexivity|].
+    intros f Hf. cbn [need_ditems] in Hf. destruct f as [|[|f]]; try lia. rewrite rz_S. cbn [app]. unfold rz_step, elem_step. rewrite rd_S. reflexivity.
+  - inversion HF as [|? ? Hx Hr]; subst. inversion HS as [|? ? Sx Sr]; subst. inversion HP as [|? ? EPx EPr]; subst.
+    cbn [write_items] in W. destruct (write_data x st) as [s1| | |] eqn:E1; try discriminate.
+    destruct (Hx e st s1 En Sx C E1) as (C1 & N1 & G1 & b1 & d1 & c1 & B1 & LB1 & D1 & P1).
+    assert (En1 : enm s1 = nm) by (rewrite N1; exact En).
+    destruct (IH Hr Sr EPr s1 st' En1 C1 W) as (C2 & N2 & G2 & b2 & ds & c2 & B2 & D2 & P2).
+    split; [exact C2|]. split; [rewrite N2; exact N1|]. split; [eapply grows_trans; eassumption|].
+    exists (b1 ++ b2), (d1 :: ds), (c1 ++ c2). split; [rewrite B2, B1, <- app_assoc; reflexivity|]. split; [econstructor; eassumption|].
+    intros Sm dst rest I.
+    destruct (P1 (small_back _ _ G2 Sm) dst (b2 ++ 90 :: rest) I) as (dst1 & I1 & H1 & V1).
+    destruct (P2 Sm dst1 rest I1) as (dst2 & I2 & H2' & V2).
+    exists dst2. split; [exact I2|]. split; [rewrite H2', H1, <- app_assoc; reflexivity|].
+    intros f Hf. cbn [need_ditems] in Hf. destruct f as [|f]; [lia|]. rewrite rz_S. unfold rz_step.
+    rewrite <- app_assoc. destruct (V1 f ltac:(lia)) as (_ & _ & V1c). destruct (V1c NI EPx) as (d0 & RD0 & SV0).
+    rewrite (elem_of_rd _ e dst _ d0 d1 _ dst1 RD0 SV0 NI). rewrite V2 by lia. reflexivity.
+Qed.
+
 (* ---- maps ---- *)
 Lemma re_S f kt vt acc dst bs : R_re (readers_at te tm (S f)) kt vt acc dst bs = re_step te (readers_at te tm f) kt vt acc dst bs.
 Proof. reflexivity. Qed.
@@ -1121,6 +1154,41 @@ Proof.
     inversion Hs; subst. cbn [write_data] in W.
     destruct (ref_find (erefs st) a RStruct 0) as [i|] eqn:RF; [|discriminate]. inversion W; subst st'.
     apply rt_ref; [exact RF|apply dg_seen; exact RF|exact C].
+Qed.
+
+(* the list  l  of element type e, rendered by hand in the variable-length typed form, decodes at a
+   field of type []e to the same value as in the forms the encoder writes *)
+Theorem list_variable_typed_form ty l e ltn st st' :
+  nm_lookup nm ty = Some ltn -> tm_lookup tm ltn = Some (TSlice e) -> Forall valid_rune ltn -> e <> TIface ->
+  Forall (sgv e) l -> Forall elem_pos_ok l -> enm st = nm -> cls_ok F (ecls st) ->
+  write_items l {| ecls := ecls st; erefs := erefs st ++ [(0, RSlice)]; enm := enm st; eout := [] |} = Ok st' ->
+  exists ds cells, dgs (erefs st ++ [(0, RSlice)]) l ds cells (erefs st') /\
+    (small st' -> forall dst rest, Inv st dst ->
+       exists dst', Inv st' dst' /\ dheap dst' = dheap dst ++ RList (Some (DSlice e ds)) :: cells /\
+       forall f, (4 + need_ditems l <= f)%nat ->
+         R_rf (readers_at te tm f) (TSlice e) dst ((85 :: encode_string ltn ++ ebytes st' ++ [90]) ++ rest) = Ok (DSlice e ds, rest, dst')).
+Proof.
+  intros NL TM V NE HS HP En C W.
+  set (st1 := {| ecls := ecls st; erefs := erefs st ++ [(0, RSlice)]; enm := enm st; eout := [] |}) in *.
+  assert (HR : Forall rt_ok l) by (apply Forall_forall; intros x _; apply graph_roundtrip).
+  destruct (elems_rz e NE l HR HS HP st1 st' En C W) as (C2 & N2 & G2 & b2 & ds & c2 & B2 & D2 & PE).
+  cbn [ebytes st1 eout concat app] in B2. exists ds, c2. split; [exact D2|].
+  intros Sm dst rest I. pose proof (Inv_len _ _ I) as IL. pose proof I as I0. destruct I as (I1 & I2 & I3).
+  set (dstT := {| dtypes := dtypes dst ++ [ltn]; dcls := dcls dst; dheap := dheap dst |}).
+  assert (IP : Inv st1 (heap_push dstT (RList None))).
+  { eapply (Inv_push st dst st1 dstT (RList None) 0 RSlice I0); [exact I1|reflexivity|reflexivity|reflexivity|discriminate]. }
+  destruct (PE Sm (heap_push dstT (RList None)) rest IP) as (dst2 & J2 & H2h & V2).
+  cbn [heap_push dheap dstT] in H2h. rewrite <- app_assoc in H2h. cbn [app] in H2h.
+  destruct (Inv_fill st' dst2 (dheap dst) (RList None) (RList (Some (DSlice e ds))) c2 J2 H2h eq_refl) as [IF HH]; [intros ty0 o X; discriminate|].
+  exists (heap_set dst2 (length (dheap dst)) (RList (Some (DSlice e ds)))). split; [exact IF|]. split; [exact HH|].
+  intros f Hf. destruct f as [|[|g]]; try lia.
+  rewrite rf_S. unfold rf_step. rewrite rl_S. unfold rl_step. cbn [app bind].
+  change (gbinaryTag 85) with false. change (85 =? g_nilTag) with false. change (grefTag 85) with false.
+  change (85 =? g_objectDefTag) with false. change (gtypedListTag 85) with true. cbv iota.
+  unfold typed_list_step. rewrite B2. rewrite <- !app_assoc. rewrite read_type_str by exact V. cbn [bind].
+  change (85 =? g_listVariableTypedTag) with true. cbv iota. cbn [bind]. rewrite TM.
+  change ({| dtypes := dtypes dst ++ [ltn]; dcls := dcls dst; dheap := dheap dst |}) with dstT.
+  cbn [app]. rewrite (V2 g ltac:(lia)). cbn [bind set_slice]. rewrite gtype_eqb_refl. reflexivity.
 Qed.
 
 (* when the rendering lists exactly the fields of the Go type (what the encoder does for a value of
